@@ -1,8 +1,9 @@
 import DD.Driver
 import DD.Dddmp
+import DD.DddmpText
 open DD
 
-/-- `<id>\tdddmp_load\t<fields...>`: load the abstract file into manager `<id>`,
+/-- `<id>\tdddmp_text\t<hex>`: `dd.dddmp.load` on the text; `<id>\tdddmp_load\t<fields...>`: load the abstract file into manager `<id>`,
 answer the (sorted) contents of `roots`; every other line goes to `DD.stepLine` -/
 def stepLineDddmp (ms : Mgrs) (line : String) : Mgrs × String :=
   match line.splitOn "\t" with
@@ -10,6 +11,14 @@ def stepLineDddmp (ms : Mgrs) (line : String) : Mgrs × String :=
     match parseNat? id, parseDddmpFile fields with
     | some id, some f =>
       match loadDddmp f with
+      | .ok m => (ms.insert id m, "ok " ++ showInts (sortBy (· ≤ ·) m.roots))
+      | .error e => (ms, "err " ++ toString e)
+    | _, _ => (ms, "err BAD-LINE")
+  | id :: "dddmp_text" :: [hex] =>
+    -- the TEXT of the file (hexadecimal bytes): lexer, grammar, line dispatch, then the loader
+    match parseNat? id, unhexAscii hex.toList with
+    | some id, some text =>
+      match loadDddmpText text with
       | .ok m => (ms.insert id m, "ok " ++ showInts (sortBy (· ≤ ·) m.roots))
       | .error e => (ms, "err " ++ toString e)
     | _, _ => (ms, "err BAD-LINE")
